@@ -40,7 +40,7 @@ def ticking_source(nid):
 def case(draw, tier):
     big = tier == "thorough"
     horizon = draw(st.integers(3, 14 if big else 8))
-    shape = draw(st.sampled_from(["flat", "flat", "nested", "map", "switch"]))
+    shape = draw(st.sampled_from(["flat", "flat", "nested", "map", "switch", "reduce"]))
     n = draw(st.integers(2, 6))
     stmts = [ticking_source("n0")]
     subs = {}
@@ -70,7 +70,8 @@ def case(draw, tier):
         for t in range(1, horizon):
             if draw(st.booleans()):
                 k = draw(st.integers(0, 4))
-                script.append([t, [{"k": "D", "ops": [["set", k, t]]}]])
+                # removals leave holes below surviving keys' slots; re-adds reuse them
+                script.append([t, [{"k": "D", "ops": [["erase", k]] if draw(st.integers(0, 2)) == 0 else [["set", k, t]]}]])
         stmts.append({"id": "d", "op": "src", "schema": "TSD[int,TS[int]]", "script": script})
         stmts.append({"id": "m", "op": "op", "name": "map_", "args": [{"fn": "F"}, {"ts": "d"}], "has_out": True})
         stmts.append({"id": "after", "op": "node", "ins": ["m"], "log_inputs": False, "valid": []})
@@ -87,6 +88,19 @@ def case(draw, tier):
         stmts.append({"id": "sw", "op": "op", "name": "switch_", "args": [{"ts": "key"}, {"cases": [[0, "B0"], [1, "B1"]], "key_t": "int"}, {"ts": prev}], "has_out": True})
         stmts.append({"id": "after", "op": "node", "ins": ["sw"], "log_inputs": False, "valid": []})
         targets += ["B0.s0", "B0.s1", "B1.s0", "B1.s1", "after"]
+    elif shape == "reduce":
+        subs["C"] = {"params": ["TS[int]", "TS[int]"], "names": ["lhs", "rhs"], "out": "TS[int]", "ret": "c1", "stmts": [
+            {"id": "c0", "op": "node", "ins": [{"arg": 0}], "out": "TS[int]", "fn": "sum", "log_inputs": False},
+            {"id": "c1", "op": "node", "ins": ["c0", {"arg": 1}], "out": "TS[int]", "fn": "sum", "log_inputs": False}]}
+        script = [[0, [{"k": "D", "ops": [["set", k, k + 1] for k in range(draw(st.integers(2, 6)))]}]]]
+        for t in range(1, horizon):
+            if draw(st.booleans()):
+                k = draw(st.integers(0, 6))
+                script.append([t, [{"k": "D", "ops": [["set", k, t]] if draw(st.integers(0, 3)) else [["erase", k]]}]])
+        stmts.append({"id": "d", "op": "src", "schema": "TSD[int,TS[int]]", "script": script})
+        stmts.append({"id": "red", "op": "op", "name": "reduce", "args": [{"fn": "C"}, {"ts": "d"}] + ([{"sc": 100, "t": "int"}] if draw(st.booleans()) else []), "has_out": True})
+        stmts.append({"id": "after", "op": "node", "ins": ["red"], "log_inputs": False, "valid": []})
+        targets += ["C.c0", "C.c1", "after"]
     nfaults = draw(st.sampled_from([0, 1, 1, 1, 2, 2]))
     faults = []
     for _ in range(nfaults):
@@ -221,6 +235,18 @@ def check(case, ctx) -> Result:
             out.append(("stop_order", f"graph {gid}: nodes stopped in order {order} (not the reverse of the start order)"))
     # ---- the error reaching the caller
     exp_first = expected_first_fault(case, trace)
+    # was the first failure a stop inside a child graph that was retired while the run was still going?
+    midrun_child_stop = False
+    root_stopping = False
+    for e in trace:
+        if e[0] == "gP" and e[1] == "r":
+            root_stopping = True
+        if e[0] == "npf":
+            midrun_child_stop = (e[1] != "r") and not root_stopping
+            break
+        if e[0] == "nsf" or (e[0] == "ev" and len(e) > 7 and isinstance(e[7], dict) and e[7].get("throw")):
+            break
+    feats["first_fault_midrun_child_stop"] = midrun_child_stop
     if exp_first is not None:
         if err is None:
             out.append(("error_swallowed", f"user code of {exp_first[1]} threw in {exp_first[0]} but run() returned normally"))
